@@ -18,7 +18,10 @@ for u in UNITS:
         u['enforce'] = ['remove_']
 
 # server::l2cap_output, the consumer of the queue: one dequeue, no other queue operation (contract stated in C08.py)
-UNITS += [dict(u) for u in _load('C08').UNITS if u['name'] == 'l2cap_output']
+UNITS += [dict(u, replay=dict(src='replay/c11_replay.cpp', cxxflags=['-DNDEBUG', '-I/repo/tests/test_tools', '-I/repo/tests/link_layer'],
+              repo_sources=['tests/test_tools/test_radio.cpp', 'tests/test_tools/test_servers.cpp', 'tests/test_tools/hexdump.cpp', 'tests/test_tools/buffer_io.cpp', 'tests/test_tools/address_io.cpp',
+                            'bluetoe/link_layer/delta_time.cpp', 'bluetoe/link_layer/channel_map.cpp', 'bluetoe/link_layer/connection_details.cpp', 'bluetoe/utility/address.cpp']))
+          for u in _load('C08').UNITS if u['name'] == 'l2cap_output']
 UNITS += [
     dict(name='confirmation',
          extracts=dict(CODES_EX, **ERR_EX,
